@@ -140,8 +140,13 @@ def mutants_at(base, pos: int):
     if kind in ("triple", "quad", "graph_start") and pos > 0:
         first = rows[0][2]
         if first["kind"] == "options":
-            for label, change in (("later-options-version-99", {"version": 99}),
-                                  ("later-options-physical-type", {"physical_type": pt % 3 + 1})):
+            zeroed = [("later-options-zeroed-" + f.replace("max_", "").replace("_size", ""),
+                       {f: 0}) for f in ("physical_type", "max_name_table_size",
+                                         "max_prefix_table_size", "max_datatype_table_size")
+                      if first["v"].get(f)]
+            for label, change in [("later-options-version-99", {"version": 99}),
+                                  ("later-options-physical-type", {"physical_type": pt % 3 + 1}),
+                                  *zeroed]:
                 yield label, insert([jwire.mkrow("options", {**first["v"], **change})])
     # rows of a forbidden kind inserted here
     forbidden = {1: ("quad", "graph_start", "graph_end"), 2: ("triple", "graph_start", "graph_end"),
